@@ -622,19 +622,23 @@ func runC19(r *Run, p *Prog) {
 
 	// ---- A6: re-bindable
 	r.Guard("A6", func() {
-		idx := fieldIndex(ro.ServiceT, svcF.Listener)
+		_ = fieldIndex
 		n := 0
 		// stores of a listener on the bind path: in Bind's inlined view, and in scope functions that are not part of it
 		inBind := cg.Reach([]*ssa.Function{bind}, false)
 		var fas []*ssa.FieldAddr
-		for _, fa := range fieldAddrs(p, ro.ServiceT, idx) {
-			if f := fa.Parent(); scope[f] && !inBind[f] {
-				fas = append(fas, fa)
+		for _, stt := range serviceStateTypes {
+			if i := fieldIndex(stt, svcF.Listener); i >= 0 {
+				for _, fa := range fieldAddrs(p, stt, i) {
+					if f := fa.Parent(); scope[f] && !inBind[f] {
+						fas = append(fas, fa)
+					}
+				}
 			}
 		}
 		for _, b := range vb.Blocks {
 			for _, in := range b.Instrs {
-				if fa, ok := in.(*ssa.FieldAddr); ok && fa.Field == idx && isNamed(fa.X.Type(), pkgVarlink, "Service") {
+				if fa, ok := in.(*ssa.FieldAddr); ok && isServiceState(fa.X.Type()) && fieldName(fa.X, fa.Field) == svcF.Listener {
 					fas = append(fas, fa)
 				}
 			}
